@@ -68,6 +68,10 @@ var nonIdemStmts = []string{
 
 const prepIdem = "INSERT INTO ks.tbl (k, v) VALUES (?, 1)"
 const prepNonIdem = "INSERT INTO ks.tbl (k, v) VALUES (?, now())"
+
+// valid CQL that the proxy's own parser cannot classify (a dollar-quoted string constant): prepared through the proxy and in
+// its prepared cache like any other statement, but not positively idempotent
+const prepOdd = "INSERT INTO ks.tbl (k, v) VALUES (?, $$it's$$)"
 const prepSelect = "SELECT v FROM ks.tbl WHERE k = ?"
 const prepUnknown = "INSERT INTO ks.other (k, v) VALUES (?, 2)" // prepared on the backend only: the proxy never saw its PREPARE
 
@@ -192,7 +196,10 @@ func (rr *reqRun) buildFrame(sc *reqScenario, tok string, stream int16, version 
 		stmt := prepIdem
 		if !sc.Idem {
 			stmt = prepNonIdem
-			if rr.intn(4) == 0 {
+			switch rr.intn(4) {
+			case 1:
+				stmt = prepOdd
+			case 0:
 				// an id the proxy has never seen prepared is not positively idempotent (and not in its cache)
 				return frame.NewFrame(version, stream, &message.Execute{QueryId: rr.ids[prepUnknown], ResultMetadataId: rr.ids[prepUnknown],
 					Options: &message.QueryOptions{Consistency: cl, PositionalValues: []*primitive.Value{primitive.NewValue([]byte(tok))}}}), "EXECUTE", false
@@ -297,7 +304,7 @@ func classString(idem, cached bool) string {
 
 func (rr *reqRun) prepareAll(c *cqlclient.Client) error {
 	rr.ids = map[string][]byte{}
-	for i, stmt := range []string{prepIdem, prepNonIdem, prepSelect} {
+	for i, stmt := range []string{prepIdem, prepNonIdem, prepSelect, prepOdd} {
 		r, err := c.Roundtrip(frame.NewFrame(c.Version, int16(100+i), &message.Prepare{Query: stmt}), "", "setup-prepare", 10*time.Second)
 		if err != nil {
 			return err
